@@ -36,6 +36,8 @@ def cpu():
 
 
 def run(rep):
+    t0 = time.time()
+    phases = rep.notes.setdefault("phase_wall_s", {})
     # (a) the budget model
     res = tlc.run(rep.pid, "RegexVM", VM_DESIGN, timeout=3600, tag="vm_design", workers=8)
     rep.add_tlc("RegexVM(design: budgets in every loop kind)", res)
@@ -45,7 +47,8 @@ def run(rep):
     rep.add_tlc("RegexVM(as-is: sub-matchers without step budget)", res2, must_hold=False)
     if res2.violated != ["SubStepBound"]:
         raise Machinery("as-is RegexVM model: expected exactly SubStepBound to fail, got %r" % (res2.violated,))
-    rep.notes["model_asis"] = "SubStepBound fails when the sub-matcher loops do not compare their step count with step_limit (finding F-C10-sub-no-step-limit)"
+    rep.notes["model_asis"] = ("SubStepBound fails when the sub-matcher loops do not compare their step count with step_limit (the defect "
+                               "F-C10-sub-no-step-limit, repaired in the engine by dd4ff18; an observation of it is a violation again)")
     res3 = tlc.run(rep.pid, "C10", LAW_CFG, timeout=3600, tag="laws")
     rep.add_tlc("C10.AcceptorLaws(strings<=3)", res3)
     res = tlc.run(rep.pid, "C10", ENUM_CFG, env={"TIER": rep.tier}, timeout=3600, tag="enum")
@@ -55,9 +58,16 @@ def run(rep):
         kinds.setdefault(r["kind"], []).append(r)
     if not all(k in kinds for k in ("strings", "flags", "special", "family", "fold")):
         raise Machinery("enumeration incomplete: %r" % list(kinds))
+    phases["models_laws_enum"] = round(time.time() - t0, 1)
+    t0 = time.time()
     construction(rep, kinds["strings"][0], kinds["flags"][0], kinds["special"])
+    phases["construction"] = round(time.time() - t0, 1)
+    t0 = time.time()
     matching(rep, kinds["family"])
+    phases["matching"] = round(time.time() - t0, 1)
+    t0 = time.time()
     folding(rep, kinds["fold"])
+    phases["folding"] = round(time.time() - t0, 1)
     rep.exhaustive = True
     rep.notes["rule"] = ("construction: one judged evaluation = one (pattern string, channel); matching: one judged run = (family, subject length, mode) "
                          "with per-loop-kind step counts, stack high-water mark and poll count; folding: one judged evaluation = one "
@@ -110,7 +120,7 @@ def construction(rep, strings, flags, specials):
     nid = 0
     stats = {"accept": 0, "reject": 0, "outside": 0}
     judged = 0
-    tE = tJ = 0.0
+    tE = tJ = wE = 0.0
     works = {}
     first = True
     while True:
@@ -126,7 +136,7 @@ def construction(rep, strings, flags, specials):
             nid += 1
         if not items:
             break
-        c0 = cpu()
+        c0, w0 = cpu(), time.time()
         # a special is a batch and a child process of its own, next to the 16 that share the batches of 400 strings (some specials
         # take seconds per channel: in one batch, as they were, they made one child the last to finish by far)
         alone = [it for it in items if "name" in it]
@@ -141,6 +151,7 @@ def construction(rep, strings, flags, specials):
             for f in futs:
                 results.extend(f.result())
         tE += cpu() - c0
+        wE += time.time() - w0
         byid = {it["id"]: it for it in items}
         recs = []
         for r in results:
@@ -202,6 +213,7 @@ def construction(rep, strings, flags, specials):
     rep.notes["construction_classes"] = stats
     rep.notes["specials(nodes_visited,emitted,cpu_s_all_channels)"] = {k: works[k] for k in sorted(works)}
     rep.notes["construction_engine_judge_cpu_s"] = [round(tE, 1), round(tJ, 1)]
+    rep.notes.setdefault("phase_wall_s", {})["construction_engine_part"] = round(wE, 1)
 
 
 def folding(rep, chars):
